@@ -135,6 +135,20 @@ PROPS = {
   'essential_classes': ['dev:honest', 'dev:foreign-id', 'dev:other-hash', 'dev:status', 'dev:error-pdu', 'dev:error-pdu-status0', 'dev:bad-mac', 'dev:no-mac', 'dev:inconsistent-chains', 'dev:other-pdu-version', 'outcome:success', 'outcome:error',
                         'api:async', 'api:signAggregated', 'transport:http', 'transport:tcp', 'pdu:v1', 'pdu:v2', 'untrusted-algorithm'],
   'assumptions': ['simulated sockets / libcurl behave as documented'],
+ }, 'C06': {
+  'technique': 'property-based testing (rapidcheck) + exhaustive single-bit flips per response, oracle = reference HMAC (RFC 2104 over Crypto++) and reference PDU decoder',
+  'level_text': 'Requests produced by the enclose API and by the blocking / asynchronous clients are decoded by a reference PDU decoder and their MAC recomputed by an independent HMAC over the authenticated range (v2: every byte before the digest; v1: header and payload elements), '
+                'for keys shorter than, equal to and longer than the hash block, every trusted algorithm, both PDU versions; untrusted algorithms must produce nothing. Reference-built responses (aggregation, extension, configuration; v1 and v2) are delivered unmodified and altered '
+                '(every single bit exhaustively; multi-bit flips, truncation, other key, other algorithm, other version, header / MAC removed, spliced MAC) through parse+verify, the blocking client and the asynchronous service: unmodified content must arrive unchanged, altered responses must deliver nothing '
+                '(v1: a flip outside header, payload and MAC imprint may also deliver the identical original content).',
+  'level_note': 'Trusted: ref/hash.cpp HMAC (RFC 4231 / RFC 2202 known answers in setup), ref/pdu.cpp. The high-availability delivery path is exercised under C15.',
+  'rule': 'rapidcheck choice strings -> request cases (API, version, algorithm incl. untrusted, key length in {1,5,20,63,64,65,127,128,129,200}) and response cases (kind, version, MAC algorithm, key, delivery path, one of 10 alterations); '
+          'exhaustive: every bit of 6 responses x delivery paths. Every case is non-trivial (each carries a MAC decision); distinct = distinct (kind, version, algorithm, key length, path, alteration).',
+  'quick': {'cases': 4800, 'max_size': 200, 'exhaustive': True, 'wall_s': 900},
+  'thorough': {'cases': 96000, 'max_size': 300, 'exhaustive': True, 'wall_s': 3000},
+  'sim': ['simsock', 'fakecurl', 'simclock'],
+  'essential_classes': ['request:enclose', 'request:untrusted-alg', 'unmodified', 'altered:rejected', 'path:parse+verify', 'path:blocking-client', 'path:async-service', 'kind:aggregation', 'kind:extension', 'kind:aggr-config', 'kind:ext-config', 'pdu:v1', 'pdu:v2', 'keylen:64', 'keylen:128', 'keylen:129'],
+  'assumptions': ['reference HMAC correct (known-answer vectors)'],
  },
 }
 
